@@ -218,6 +218,24 @@ theorem C05_batch_level_error_roundtrip (reg : ErrRegistry) (cls : ErrClass) (e 
   simp [BatchResponse.toJson, Response.toJson, BatchResponse.fromJson, lookup, optIdToJson, he,
     BatchResponse.construct, BatchResponse.extend, addIds]
 
+/-- The wire form follows the elements: a batch that has been serialised, then grown by `append` / `extend`,
+serialises to the array of the wire forms of its current elements, in order (the serialisation is a function of the
+current contents - nothing of an earlier serialisation can survive in it). -/
+theorem C05_wire_follows_elements (b b' : BatchRequest) (rs : List Request) (h : b.extend rs = .ok b') :
+    b'.toJson = .arr ((b.requests ++ rs).map Request.toJson) := by
+  unfold BatchRequest.extend at h
+  split at h
+  · cases h
+  · cases h; rfl
+
+theorem C05_response_wire_follows_elements (b b' : BatchResponse) (rs : List Response) (he : b.error = .unset)
+    (h : b.extend rs = .ok b') :
+    b'.toJson = .arr ((b.responses ++ rs).map Response.toJson) := by
+  unfold BatchResponse.extend at h
+  split at h
+  · cases h
+  · cases h; simp [BatchResponse.toJson, he]
+
 /-! ### Non-vacuity -/
 
 example : (⟨some (.int 0), .set .null, .unset⟩ : Response).WF := by simp [Response.WF, MaybeSet.isSet]
